@@ -308,4 +308,31 @@ PROPS = {
             sub("krigcalc", "c10_history", 3000, 100000),
             sub("modelinc", "c10_history", 1500, 40000),
         ]),
+    "C13": dict(
+        level="exploration",
+        rule=("rapidcheck-generated small simulations (<=400 targets, nbsimu 1-4, nbtuba 1-200, valid models, seeds in [1,20000158]): every call is made "
+              "twice on freshly rebuilt inputs with nothing reset in between -> bit-identical outputs (simtub non-conditional/conditional with unique and moving "
+              "neighbourhoods, simbayes, simfft, simulateSPDE, gibbs_sampler, simpgs, SimuSpectral); two seeds / two simulation ranks differ somewhere; "
+              "conditional turning bands reproduce each datum at a coinciding target (kappa-scaled tolerance, with and without nugget); "
+              "law_gaussian_between_bounds(a,b) in [a,b] for generated a<=b (|a|,|b| up to 30, one-sided/NA, equal bounds); gibbs_sampler outputs inside each "
+              "sample's [L,U] for every simulation; simpgs: gaussians inside the thresholds of the observed facies (thresholds recomputed in the harness from "
+              "the proportions) and simulated facies at data = observed facies; non-trivial = success and (repro) >=1 target is not a datum, or (tb_cond, pgs) "
+              ">=1 datum coincides with a target and was compared in every simulation, or (trunc, gibbs) >=1 interval of finite positive width was drawn from; "
+              "distinct = hash of (dimension, sizes, options, structures)"),
+        assumptions=["'same inputs' = objects rebuilt from the same description; global state is reset only before the first call",
+                     "the seed of simulateSPDE is the one given to law_set_random_seed immediately before the call (no seed argument)",
+                     "exactness tolerance 1e4.kappa.eps.scale, kappa > 1e10 inconclusive; Gibbs bounds with slack 1e-9(1+|b|)",
+                     "a non-zero return code is a documented refusal, only required to be reproducible",
+                     "seed/rank sensitivity is not asserted for the moving-neighbourhood Gibbs sampler (recorded finding: indefinite truncated covariance)",
+                     "models restricted to mathematically valid ones; Matern<0.5 / stable<1 not generated for turning bands; simfft on grids with nx>=2 per axis; simbayes with defined data only"],
+        subs=[
+            sub("tb_repro", "c13_simu", 600, 12000),
+            sub("tb_cond", "c13_simu", 1000, 20000),
+            sub("fft", "c13_simu", 1000, 30000),
+            sub("spde", "c13_simu", 150, 2500),
+            sub("spectral", "c13_simu", 2000, 60000),
+            sub("trunc", "c13_simu", 5000, 150000),
+            sub("gibbs", "c13_simu", 2000, 60000),
+            sub("pgs", "c13_simu", 800, 25000),
+        ]),
 }
